@@ -292,7 +292,7 @@ def c19(tier, seed):
     q = tier == "quick"
     # the specification has no option-dependent behaviour: the design itself is checked as for C01/C08
     mc_cfg(res, "NutsMC_kv", inv=["MCReopenInv", "TypeOK"], props=[], timeout=1800)
-    shards = fam_shards([("productkv", []), ("product", [])] + SPARSE_PRODUCT, seed, 1 if q else 12, 2 if q else 3, 30 if q else 80)
+    shards = fam_shards([("productkv", []), ("product", []), ("productfill", ["-steps", "12"])] + SPARSE_PRODUCT, seed, 1 if q else 12, 2 if q else 3, 30 if q else 80)
     rs = core.drive_and_validate(res, shards, core.dev_set(), "the same call sequence gave a different result under another RWMode/StartFileLoadingMode/SyncEnable/RAM index mode",
                                  "product runs: the same seeded history executed under every combination of RWMode x StartFileLoadingMode x SyncEnable (x both RAM index modes for KV histories, with merges), compared event by event")
     res.cov["samples"] = core.sample_events(rs[0]["trace"], 5, ops={"get", "obs", "open", "commit"})
@@ -334,6 +334,29 @@ def SPARSE_PAGE(path, seed):
     return []
 
 
+def c20(tier, seed):
+    res = Result("C20", tier, seed)
+    core.build()
+    q = tier == "quick"
+    path, g, n = core.gen_transitions("ApiTotal.cfg", {} if q else {"Full": "= TRUE"}, timeout=1800, module="ApiTotal")
+    res.add_mc("ApiTotal", g)
+    res.extra["emitted_calls"] = n
+    shards = [["@replay", "%mod=ApiTotalTrace", "-in", path, "-mode", "total"]]
+    # every other driver records panics too: random call orders over all structures, with failures and merges
+    shards += fam_shards([("fail", []), ("merge", []), ("intx", [])], seed, 1 if q else 8, 2 if q else 3, 30 if q else 80)
+    rs = core.drive_and_validate(res, shards, core.dev_set(), "an API call panicked (or never returned), or a Commit after a successful call panicked",
+                                 "every exported method of Tx and DB x lifecycle state x boundary-heavy argument tuples enumerated by TLC (ApiTotal.tla), executed under recover(); plus random histories")
+    res.cov["samples"] = core.sample_events(path, 4) + core.sample_events(rs[0]["trace"], 4)
+    res.cov["exhaustive"] = True
+    res.cov["distinct_nontrivial"] = n
+    res.cov["rule"] = ("every (method, lifecycle state, argument tuple) of ApiTotal.tla is emitted once by TLC and executed on the real library; "
+                       "ApiTotalTrace accepts a recorded call iff it returned (value or error), the following Commit returned, and calls on finished "
+                       "transactions / closed databases returned an error")
+    res.assumptions += ["argument domains: (bucket,key) pairs incl. nil/empty/separator/missing, ints MinInt64..MaxInt64, NaN/Inf scores, invalid regexp, nil and odd option structs; "
+                        "full products in the active lifecycle states, one representative tuple in the finished/closed ones"]
+    return res.finish()
+
+
 def c15(tier, seed):
     res = Result("C15", tier, seed)
     core.build()
@@ -352,7 +375,7 @@ def c15(tier, seed):
     return res.finish()
 
 
-CHECKS = {"C03": c03, "C19": c19, "C04": c04, "C10": c10, "C11": c11, "C16": c16, "C09": c09, "C15": c15, "C01": c01, "C05": c05, "C06": c06, "C07": c07, "C08": c08, "C12": c12, "C13": c13}
+CHECKS = {"C20": c20, "C03": c03, "C19": c19, "C04": c04, "C10": c10, "C11": c11, "C16": c16, "C09": c09, "C15": c15, "C01": c01, "C05": c05, "C06": c06, "C07": c07, "C08": c08, "C12": c12, "C13": c13}
 
 
 def main(argv):
